@@ -111,7 +111,11 @@ func verifFitsWidth(v int64, width int) bool {
 	if width == 1 {
 		return verifAnd(v >= -64, v <= 63)
 	}
-	return verifAnd(v >= -8192, v <= 8191)
+	if width == 2 {
+		return verifAnd(v >= -8192, v <= 8191)
+	}
+	lim := int64(1) << uint(7*width-1)
+	return verifAnd(v >= -lim, v <= lim-1)
 }
 
 func verifVarBytes(dst []byte, b verifBytes) []byte {
